@@ -276,11 +276,17 @@ pub fn lower_all(session: &zydeco_session::CompilerSession, analysis: &zydeco_se
 fn render_product(c: &J) -> String {
     let n = c["n"].as_u64().unwrap() as usize;
     let k = c["k"].as_u64().unwrap() as usize;
-    let tuple = (1..=n).map(|i| i.to_string()).collect::<Vec<_>>().join(", ");
+    let boxed = c["first"] == "boxed";
+    let tuple = (1..=n).map(|i| if boxed && i == 1 { "+Bx(1)".to_string() } else { i.to_string() }).collect::<Vec<_>>().join(", ");
+    let tuple_ty = (1..=n).map(|i| if boxed && i == 1 { "Bx" } else { "Int64" }).collect::<Vec<_>>().join(" * ");
     let rest_is_int = n - k == 1;
     let then = c["then"].as_str().unwrap();
     let mut names: Vec<String> = (1..=k).map(|i| format!("x{i}")).collect();
-    let pat = format!("({}, rest)", names.join(", "));
+    let pat = if boxed {
+        format!("(+Bx(x1){}, rest)", names[1..].iter().map(|x| format!(", {x}")).collect::<String>())
+    } else {
+        format!("({}, rest)", names.join(", "))
+    };
     let mut pre = String::new();
     if then == "unpackrest" {
         let ys: Vec<String> = (k + 1..=n).map(|i| format!("y{i}")).collect();
@@ -308,6 +314,9 @@ fn render_product(c: &J) -> String {
         | "afterdo" => format!("do z <- ret 0;\n{body}"),
         | _ => format!("! {{ {body} }}"),
     };
+    if boxed {
+        return format!("let Bx = data | +Bx : Int64 end in\nlet b : B = +T() in\nlet t : {tuple_ty} = ({tuple}) in\n{placed}\n");
+    }
     format!("let b : B = +T() in\nlet t = ({tuple}) in\n{placed}\n")
 }
 
